@@ -101,6 +101,7 @@ class World:
         self.zpeer = None   # zlib decompressor honouring the negotiated context (for Z: canonicalisation)
         self.deflate_cfg = None
         self.peer_cfg = peer_view(scenario)   # what the SERVER's reply said about permessage-deflate, parsed here (not by lomond)
+        self.calls = []     # one entry per application call: [trace position, kind, result, wire tokens]
         self.raw = []       # every byte string `sendall` accepted, verbatim (C06 inflates the compressed frames itself)
 
     def log(self, tok):
@@ -419,6 +420,7 @@ def do_act(world, ws, act):
     k = act[0]
     if k == 'abandon':
         raise Abandon(act[1])
+    n0 = len(world.trace)
     try:
         if k == 'send_text':
             ws.send_text(arg_value(act[1]), compress=act[2])
@@ -446,6 +448,9 @@ def do_act(world, ws, act):
         world.log('R:' + exc_name(e))
     else:
         world.log('R:ok')
+    # for oracles that need to know WHICH call did what (not part of the trace the model is compared with):
+    # (position in the trace, kind of call, result token, what it put on the wire)
+    world.calls.append([n0, k, world.trace[-1][2:] if world.recording else '?', [t for t in world.trace[n0:-1] if t[:2] in ('W:', 'Z:', 'W!') or t.startswith('WF:')]])
 
 
 _BFINAL_SAFE = None
